@@ -557,8 +557,29 @@ fn stream_doc() {
             continue;
         }
         let perms: Vec<Vec<Ep>> = (0..3).map(|_| permute(&mut rng, &eps)).collect();
-        let perm_apis: Vec<_> = perms.iter().map(|p| register_all(p)).collect();
-        for v in ["0.5.0", "1.0.0", "1.5.0", "2.0.0", "2.0.0-rc.1", "3.0.0", "4.0.0"] {
+        let mut perm_apis: Vec<_> = perms.iter().map(|p| register_all(p)).collect();
+        const DOC_VERSIONS: [&str; 7] = ["0.5.0", "1.0.0", "1.5.0", "2.0.0", "2.0.0-rc.1", "3.0.0", "4.0.0"];
+        // a fourth history: the same endpoints (original order), with documents generated
+        // at every version before the first and after each registration - the final
+        // documents must not depend on which documents were asked for along the way
+        {
+            let mut api_h = dropshot::ApiDescription::<dropshot::StubContext>::new();
+            let mut k = 0;
+            for e in eps.iter() {
+                for v in DOC_VERSIONS {
+                    let _ = doc_ops(&api_h, v);
+                }
+                match real_endpoint(e).map(|r| api_h.register(r)) {
+                    Some(Ok(())) => k += 1,
+                    _ => break,
+                }
+            }
+            for v in DOC_VERSIONS {
+                let _ = doc_ops(&api_h, v);
+            }
+            perm_apis.push((k, "history".to_string(), api_h));
+        }
+        for v in DOC_VERSIONS {
             let (ops, bytes) = doc_ops(&api, v);
             let (_, bytes2) = doc_ops(&api, v);
             let mut distinct = 1;
@@ -582,7 +603,7 @@ fn stream_doc() {
             ops_s.sort();
             id += 1;
             out.line(&format!(
-                "doc {} {} {} => {} {} {} {} {} {}",
+                "doc {} {} {} => {} {} {} {} {} {} {}",
                 id,
                 enc_table(&eps),
                 v,
@@ -591,7 +612,11 @@ fn stream_doc() {
                 distinct,
                 (bytes == bytes2) as u8,
                 perm_ok as u8,
-                unresolved
+                unresolved,
+                {
+                    let t = doc_tags(&bytes);
+                    if t.is_empty() { "-".to_string() } else { t.join(",") }
+                }
             ));
         }
     }
